@@ -386,7 +386,8 @@ class Ctx:
             "violations": len(self.violations),
         }
         # runs against a scratch copy (VERIF_REPO, development / seeded-change runs) must not overwrite the evidence of /repo
-        evdir = "evidence" if "VERIF_REPO" not in os.environ else ".scratch_evidence"
+        # ... and neither must a partial run (--only <clauses>, a development aid): its record would not describe the whole check
+        evdir = "evidence" if ("VERIF_REPO" not in os.environ and not getattr(self, "only", None)) else ".scratch_evidence"
         os.makedirs(os.path.join(ROOT, evdir), exist_ok=True)
         with open(os.path.join(ROOT, evdir, "%s.json" % self.prop), "w") as f:
             json.dump(ev, f, indent=1, default=_json_default)
